@@ -311,6 +311,10 @@ def r04_8(ctx):
 
 RULES = [r04_1, r04_2, r04_3, r04_4, r04_5, r04_6, r04_7, r04_8]
 
+from .upstream import upstream_facts  # noqa: E402
+
+RULES_THOROUGH = RULES + [upstream_facts]
+
 LEVEL_TEXT = (
     "Static decision of the key-pin discipline behind C04: who-may-construct RootAlias and under which dominating guard, "
     "call-graph non-reachability of any lowering from the name/key accessors (so optimization cannot change the name), "
